@@ -398,6 +398,14 @@ def rule_manual_advance(em, rep, rid):
                                 if isinstance(c, ast.Call) and em.is_binder_call(f, c):
                                     src = c
             if src is None:
+                # ... or put into the container the advanced element is taken from: base.append(iter(unify(..)))
+                for c0 in own_nodes(f.node):
+                    if isinstance(c0, ast.Call) and isinstance(c0.func, ast.Attribute) and c0.func.attr in ('append', 'insert', 'extend', 'add') and \
+                            is_name(c0.func.value, base) and c0.args:
+                        for c in ast.walk(c0.args[-1]):
+                            if isinstance(c, ast.Call) and em.is_binder_call(f, c):
+                                src = c
+            if src is None:
                 continue
             count += 1
             cfg = em.cfg(f)
